@@ -339,6 +339,9 @@ npx = NPProxy()
 
 
 # ------------------------------------------------------------------------------------------------ import hook
+INSTRUMENT_ONLY = False        # validation mode: instrumentation + shims, real libraries (see sx/instr_plugin.py)
+
+
 class _Loader(importlib.machinery.SourceFileLoader):
     def source_to_code(self, data, path, *, _optimize=-1):
         return instrument(data, path)
@@ -348,9 +351,11 @@ class _Loader(importlib.machinery.SourceFileLoader):
 
     def exec_module(self, module):
         module.__dict__.update(HELPERS)
-        module.__dict__.update({'float': sfloat, 'str': sstr})
+        if not INSTRUMENT_ONLY:     # the float/str shims only make sense together with the models (real scipy wants real dtypes)
+            module.__dict__.update({'float': sfloat, 'str': sstr})
         super().exec_module(module)
-        _rebind(module)
+        if not INSTRUMENT_ONLY:
+            _rebind(module)
 
 
 class _PyxLoader(importlib.abc.Loader):
@@ -376,6 +381,8 @@ class _Finder(importlib.abc.MetaPathFinder):
             return None
         rel = fullname.split('.')
         base = os.path.join(REPO, *rel)
+        if INSTRUMENT_ONLY and rel[-1] in PYX:
+            return None             # the compiled extensions
         if rel[-1] in PYX and os.path.exists(base + '.pyx'):
             return importlib.util.spec_from_loader(fullname, _PyxLoader(fullname, base + '.pyx'))
         if os.path.isdir(base) and os.path.exists(os.path.join(base, '__init__.py')):
